@@ -20,6 +20,10 @@ class Check:
     rule = ""
     constants = ""
     max_report = 5
+    level_text = ""
+    level_note = ""
+    technique = "TLA+ specification as oracle; TLC trace validation of recorded executions of the real code"
+    design_ref = "DESIGN.md section 3"
     harness_timeout = 900
     tlc_timeout = 1700
 
